@@ -59,7 +59,7 @@ func genC17(dir, tier string, seed int64) {
 	rounds := 1
 	runsPer := 24
 	if tier == "thorough" {
-		rounds, runsPer = 12, 40
+		rounds, runsPer = 3, 40
 	}
 	hung := false
 	for _, cm := range models {
